@@ -135,7 +135,24 @@ spec fn scan_ok<'a, F: FnMut(&Symbol<'a>) -> bool>(syms: Seq<Symbol<'a>>, n: int
 
 // class V for walk_symbols' plain callback
 trait SymbolSink<'a> {
+    type Fixed;
+    #[verifier::prophetic]
+    spec fn fixed(&self) -> Self::Fixed;
     spec fn log(&self) -> Seq<Symbol<'a>>;
+    spec fn inv(&self) -> bool;
     fn visit(&mut self, s: Symbol<'a>)
-        ensures final(self).log() == old(self).log().push(s);
+        requires old(self).inv()
+        ensures final(self).inv(), final(self).log() == old(self).log().push(s), final(self).fixed() == old(self).fixed();
+}
+// scanning a longer sequence up to n does not look at what comes after n
+proof fn lemma_scan_ok_prefix<'a, F: FnMut(&Symbol<'a>) -> bool>(syms: Seq<Symbol<'a>>, x: Symbol<'a>, n: int, v: Seq<Symbol<'a>>, f: F)
+    requires 0 <= n <= syms.len()
+    ensures scan_ok(syms.push(x), n, v, f) == scan_ok(syms, n, v, f)
+    decreases n
+{
+    if n > 0 {
+        assert(syms.push(x)[n - 1] == syms[n - 1]);
+        lemma_scan_ok_prefix(syms, x, n - 1, v, f);
+        if v.len() > 0 { lemma_scan_ok_prefix(syms, x, n - 1, v.drop_last(), f); }
+    }
 }
